@@ -127,6 +127,9 @@ func (e *Engine) callFunc(fr *Frame, st *State, ins ssa.Instruction, fn *ssa.Fun
 		return v
 	}
 	c := e.contractFor(fn)
+	if c != nil && c.Stale != "" {
+		unsupported("callee %s has a stale contract", fnKey(fn))
+	}
 	if fr.contract != nil && fr.caller == nil && !fr.ghost && len(fr.contract.CallsiteRequires) > 0 {
 		k := fnKey(fn)
 		short := k
@@ -443,6 +446,8 @@ func (e *Engine) evalClause(fr *Frame, st, old *State, cl *Clause, results []Val
 			} else {
 				v = e.wrapLoadedGhost(e.load(st, pv), fn.Params[i].Type())
 			}
+		case PKAddr:
+			v = e.addrOfLocal(fr, cl, p)
 		}
 		args = append(args, v)
 	}
@@ -452,6 +457,21 @@ func (e *Engine) evalClause(fr *Frame, st, old *State, cl *Clause, results []Val
 		unsupported("clause [%s] did not produce a term", cl.Label)
 	}
 	return t
+}
+
+// addrOfLocal: the pointer to an address-taken local of the function under verification.
+func (e *Engine) addrOfLocal(fr *Frame, cl *Clause, p WParam) Val {
+	pv, ok := fr.byPos[p.PosKey]
+	if !ok {
+		pv, ok = fr.free[p.PosKey]
+	}
+	if !ok {
+		unsupported("clause [%s]: &%s used before the variable is allocated", cl.Label, strings.TrimPrefix(p.Name, "addr_"))
+	}
+	if pv.Kind != KObj {
+		unsupported("clause [%s]: &%s of a variable that is not address-taken in the code", cl.Label, strings.TrimPrefix(p.Name, "addr_"))
+	}
+	return pv
 }
 
 func (e *Engine) wrapLoadedGhost(v *Term, t types.Type) Val {
@@ -664,11 +684,7 @@ func (e *Engine) applyIfaceContract(fr *Frame, st *State, ins ssa.Instruction, c
 	}
 	if fr.contract != nil && !fr.ghost && fr.caller == nil {
 		for _, cl := range fr.contract.InvokeRequires[c.Key] {
-			as := append([]Val{}, all...)
-			for _, p := range fr.fn.Params {
-				as = append(as, e.val(fr, p))
-			}
-			g := e.evalWrapper(fr, st, st, e.wrapperFn(fr.contract, cl), as).(*Term)
+			g := e.evalClause(fr, st, fr.entry, cl, all)
 			key := e.curFunc + "/invoke/" + name
 			e.safetyN[key]++
 			e.addObligation(fr, st, "pre", fmt.Sprintf("invoke.%s.%s#%d", name, cl.Label, e.safetyN[key]), g, cl)
@@ -722,11 +738,7 @@ func (e *Engine) applyIfaceContract(fr *Frame, st *State, ins ssa.Instruction, c
 	}
 	if fr.contract != nil {
 		for _, cl := range fr.contract.InvokeEnsures[c.Key] {
-			args := append(append([]Val{}, all...), res...)
-			for _, p := range fr.fn.Params {
-				args = append(args, e.val(fr, p))
-			}
-			g := e.evalWrapper(fr, st, pre, e.wrapperFn(fr.contract, cl), args).(*Term)
+			g := e.evalClause(fr, st, pre, cl, append(append([]Val{}, all...), res...))
 			e.addFactQ(st, g)
 			e.notes = append(e.notes, "ASSUMED about "+name+" in "+e.curFunc+": ["+cl.Label+"] "+cl.Text)
 		}
@@ -763,6 +775,8 @@ func (e *Engine) assignTargets(fr *Frame, st *State, a *AssignItem, eval func(cl
 				} else {
 					args = append(args, e.asVal(e.load(st, pv), fn.Params[i].Type()))
 				}
+			case PKAddr:
+				args = append(args, e.addrOfLocal(fr, a.Expr, p))
 			default:
 				unsupported("assigns item refers to a result")
 			}
